@@ -104,6 +104,7 @@ typedef struct {
 static fdent_t fdt[MAX_FD];
 
 static uint64_t counts[IOP_MAX][PC_MAX];
+static uint64_t total_calls;   /* never reset: progress measure for hang detection */
 
 static __thread int t_pause = 0;
 static __thread int t_tid = 0;
@@ -352,6 +353,7 @@ void iom_snapshot_existing(int root) {
 }
 
 uint64_t iom_count(int op, int pc) { return __atomic_load_n(&counts[op][pc], __ATOMIC_RELAXED); }
+uint64_t iom_total_calls(void) { return __atomic_load_n(&total_calls, __ATOMIC_RELAXED); }
 void iom_counts_reset(void) { lock(); memset(counts, 0, sizeof(counts)); unlock(); }
 
 /* ------------------------------------------------------------------ */
@@ -517,6 +519,7 @@ static void gate_check(int op, int pc) {
 static int pre(int op, int pc, int *mode) {
   *mode = 0;
   __atomic_add_fetch(&counts[op][pc], 1, __ATOMIC_RELAXED);
+  __atomic_add_fetch(&total_calls, 1, __ATOMIC_RELAXED);
   if (iom_yield_hook) iom_yield_hook(op, pc);
   maybe_delay();
   if (nslow) maybe_slow(op, pc);
